@@ -27,7 +27,7 @@ MANIFEST = {
     "note": ("Trusted: rustc front end; spec/sgr.py; the enum dataflow in lib/enumflow.py; anstyle's convenience methods mean "
              "the like-named effect (decided in C13). Not decided: whole-sequence trace equivalence; behaviour on malformed "
              "extended-colour groups (outside the property)."),
-    "technique": "static analysis: match-table extraction vs SGR spec, powerset-of-variants dataflow over the loop nest, abstract evaluation of the run epilogue (old/new style, pending text), value-flow rules for the yielded run, linked parser rules",
+    "technique": "static analysis: match-table extraction vs SGR spec, powerset-of-variants dataflow over the loop nest, abstract evaluation of the run epilogue (old/new style, pending text), value-flow rules for the yielded run and for the driver loop (every byte through the parser, text only from its callbacks), linked parser rules",
 }
 
 W = "anstream::adapter::wincon::"
